@@ -382,6 +382,17 @@ class Ranges:
             r0 = ty_range(self.B.local_ty(t['dst']['l'])) if not t['dst'].get('p') else None
             if r0:
                 lo, hi = max(lo, r0[0]), min(hi, r0[1])
+            nm_ = str(c[1])
+            if nm_.startswith('core::num::') and nm_.rsplit('::', 1)[-1] in ('unsigned_abs', 'abs') and t['args']:
+                a = self.range_of(t['args'][0], c[2], use_facts, depth + 1)
+                if a[0] >= 0:
+                    r = (a[0], a[1])
+                elif a[1] <= 0:
+                    r = (-a[1], -a[0])
+                else:
+                    r = (0, max(-a[0], a[1]))
+                if nm_.endswith('unsigned_abs') or r[1] <= hi:
+                    lo, hi = max(lo, r[0]), min(hi, r[1])
         elif k in ('arg', 'local'):
             r0 = ty_range(self.B.local_ty(c[1]))
             if r0:
